@@ -24,6 +24,7 @@ CHECKS = {
     'C09': 'harness.c09',
     'C10': 'harness.c10',
     'C12': 'harness.c12',
+    'C14': 'harness.c14',
     'C19': 'harness.c19',
     'C20': 'harness.c20',
 }
